@@ -10,6 +10,7 @@ then cannot be stated, which the check reports as a broken obligation)."""
 import os, re
 from lib import vlib
 
+BITS_OF = {"i32": 32, "i64": 64}
 INT_BIN = "add sub mul div_s div_u rem_s rem_u and or xor shl shr_s shr_u rotl rotr".split()
 INT_REL = "eq ne lt_s lt_u gt_s gt_u le_s le_u ge_s ge_u".split()
 INT_UN = "clz ctz popcnt".split()
@@ -207,32 +208,25 @@ def regenerate(ctx, harness):
     return info
 
 
-def model_correspondence(ctx, B, model, tinfo, dist, quick):
-    """The Lean x86-64 model running the regenerated templates vs the real CPU running the real executable:
-    for every modelled row, a grid module in *inline* form (the template works on operand-stack slots exactly as extracted)."""
+def model_correspondence(ctx, model, tinfo, grid_native, dist):
+    """The Lean x86-64 model running the regenerated templates vs the real CPU running the real executable: for every modelled row the
+    operand tuples of the grid run and the values the native process printed for them (`grid_native`, function-form modules: the same
+    template text at the same frame offsets as the extracted one)."""
     from extract import c02_mods as M
-    import concurrent.futures as cf
     rng = ctx.rng
-    work = []
+    work, res = [], []
     for name, r in sorted(tinfo["rows"].items()):
         if r["kind"] == "select" or name in ILLFORMED:
             continue
         ins = r["ins"]
+        pairs = grid_native.get(ins) or []
+        cases = [c for c, _ in pairs]
         ptypes, rt = M.NUMERIC[ins]
-        cases = [c for c in M.numeric_cases(ins, rng, 8 if quick else 16, 1 if quick else 4)]
-        work.append((name, ins, cases))
-    # the real executable: non-trapping cases in one module per row; trapping cases are known from the trap jobs (SIGFPE = #DE)
-    def one(w):
-        name, ins, cases = w
-        ptypes, rt = M.NUMERIC[ins]
-        okc = [c for c in cases if not M.traps(ins, ptypes, c) and M.case_class(ins, ptypes, c) != "minint-by-minus1"]
-        b = B.build("corr_" + name, M.inline_numeric_module(ins, okc))
-        if b["stage"] != "ok":
-            return name, ins, okc, None
-        nat = B.run_native(b["exe"])
-        return name, ins, okc, nat["out"].splitlines()
-    with cf.ThreadPoolExecutor(16) as ex:
-        res = list(ex.map(one, work))
+        bits = BITS_OF[ptypes[0]]
+        m = (1 << bits) - 1
+        extra = [(1 << (bits - 1), m), (5, 0), (m, 0), (0, 0)] if len(ptypes) == 2 else []
+        work.append((name, ins, cases + extra))
+        res.append((name, ins, cases, [l for _, l in pairs]))
     ops, expect, masks = [], [], []
     JUNK = 0xDEADBEEF << 32
     for name, ins, okc, nl in res:
